@@ -287,6 +287,12 @@ def _worker(job):
         scenario(e3, shape, nm, known, with_race)
     except _e3.ENC_ERRORS as ex:
         e3.error(nm, "MIR->SMT encoding of AtomicBucket / Block", ex)
+    finally:
+        # a pool worker does not run atexit handlers: remove its scratch copy of the instrumented tree here
+        import sys
+        rm_ = sys.modules.get("replay_e3")
+        if rm_ is not None:
+            rm_.cleanup()
     obs = []
     for o in e3.res.obligations:
         d = {}
